@@ -33,6 +33,9 @@
  *   cmp <T> <hex a> <hex b>   lyd_value_compare / lyd_compare_single as in t_types.c -> 0 | 1 | E
  *   ci <T> <hex>         canonical string c1 of the value (lyd_new_term on l_<T>) and canonical string c2 of c1 stored again:
  *                        E | <hex c1> <hex c2|E>
+ *   cx <T> <hex>         the canonical string c1 of the value and what becomes of it: E | <hex c1> rs=<hex|E> cc=<OK|E> dp=<hex|E> dx=<hex|E>
+ *                        rs: c1 stored again (lyd_new_term); cc: lyd_change_term_canon(node, c1); dp: lyd_dup_single (NE: prefix
+ *                        when it compares unequal); dx: lyd_dup_single_to_ctx into a second context with the same modules
  *   dupl <T> <hex a> <hex b>   a and b as two ll_<T> instances / two k_<T> list keys, inserted and validated
  *                        (lyd_validate_all): "ll=<OK|DUP> k=<OK|DUP>" (DUP: insertion or validation refused) | E
  *   perm <T> <hex a> <hex b> <hex c>   the three values inserted as ll_<T> siblings in all six orders: the common
@@ -73,6 +76,7 @@ static const struct tdef TYPES[] = {
     {"bt", "bits {bit a {position 2;} bit b {position 0;} bit cc {position 9;} bit d {position 33;} bit e {position 70;}}", 0},
     {"bs", "bits {bit x; bit y; bit z;}", 0},
     {"bin", "binary {length \"0 | 2..4 | 48..49\";}", 0},
+    {"binu", "binary", 0},
     {"un", "union {type int8 {range \"1..10\";} type enumeration {enum auto; enum \"11\"; enum \"5\";} type string {length \"2..3\";}}", 0},
     {"un2", "union {type string {length \"1\";} type int8;}", 0},
     /* the members of un / un2 that RFC 7951 represents as JSON strings (_s) and as JSON numbers (_n): reference for section 6.10 */
@@ -98,6 +102,7 @@ static const struct tdef TYPES[] = {
     {"hx", "yang:hex-string", 0},
     {"mac", "yang:mac-address", 0},
     {"uu", "yang:uuid", 0},
+    {"nii", "nacm:node-instance-identifier", 0},
     {"ipp", "inet:ip-prefix", 0},
     {"phys", "yang:phys-address", 0},
     {NULL, NULL, 0}
@@ -105,13 +110,23 @@ static const struct tdef TYPES[] = {
 
 static const char *HEAD =
     "module types2 {yang-version 1.1; namespace urn:types2; prefix t2;\n"
-    "  import ietf-inet-types {prefix inet;} import ietf-yang-types {prefix yang;}\n"
+    "  import ietf-inet-types {prefix inet;} import ietf-yang-types {prefix yang;} import ietf-netconf-acm {prefix nacm;}\n"
     "  identity ba; identity bb; identity iab {base ba; base bb;} identity ia {base ba;} identity ib {base bb;}\n"
     "  identity iab2 {base iab;}\n"
     "  typedef c1 {type int8 {range \"1..100\";}} typedef c2 {type c1 {range \"10..50\";}}\n"
-    "  leaf tgt {type int8 {range \"1..10\";}}\n";
+    "  leaf tgt {type int8 {range \"1..10\";}}\n"
+    /* targets of instance-identifier values with several predicates */
+    "  list k2 {key \"a b\"; leaf a {type string;} leaf b {type string;} leaf v {type string;}}\n"
+    "  list o {key n; leaf n {type string;} list i {key m; leaf m {type string;} leaf v {type string;}}}\n";
+
+/* the typedef that has a dedicated type plugin (src/plugins_types/node_instanceid.c), as in ietf-netconf-acm@2018-02-14 */
+static const char *ACM =
+    "module ietf-netconf-acm {yang-version 1.1; namespace \"urn:ietf:params:xml:ns:yang:ietf-netconf-acm\"; prefix nacm;\n"
+    "  import ietf-yang-types {prefix yang;} revision 2018-02-14;\n"
+    "  typedef node-instance-identifier {type yang:xpath1.0;}}\n";
 
 static char *MODTEXT;
+static struct ly_ctx *CTX2;     /* a second context with the same modules (duplication into another context) */
 
 static void
 log_cb(LY_LOG_LEVEL level, const char *msg, const char *data_path, const char *schema_path, uint64_t line)
@@ -627,7 +642,8 @@ do_si(struct ly_ctx *ctx, struct lys_module *mod, struct vcase *c)
                 }
                 c2 = NULL;
                 m2 = NULL;
-                if (ly_ctx_new(NULL, LY_CTX_NO_YANGLIBRARY, &c2) || lys_parse_mem(c2, MODTEXT, LYS_IN_YANG, NULL)) {
+                if (ly_ctx_new(NULL, LY_CTX_NO_YANGLIBRARY, &c2) || lys_parse_mem(c2, ACM, LYS_IN_YANG, NULL) ||
+                        lys_parse_mem(c2, MODTEXT, LYS_IN_YANG, NULL)) {
                     put_tok(src, "?");
                 } else if (lys_parse_mem(c2, b.s, LYS_IN_YANG, &m2) || !m2 || !m2->compiled || !m2->compiled->data) {
                     put_res(src, NULL);
@@ -823,6 +839,63 @@ do_ci(struct lys_module *mod, struct vcase *c)
 }
 
 static void
+do_cx(struct lys_module *mod, struct vcase *c)
+{
+    size_t len;
+    char *s = vunhex(c->f[2], &len), *c1 = NULL;
+    char name[64];
+    struct lyd_node *n = NULL, *m = NULL, *d = NULL, *x = NULL;
+    LY_ERR r;
+
+    snprintf(name, sizeof name, "l_%s", c->f[1]);
+    if (memchr(s, 0, len)) {
+        printf("NUL");
+        goto cleanup;
+    }
+    if (lyd_new_term(NULL, mod, name, s, 0, &n) || !n) {
+        printf("E");
+        goto cleanup;
+    }
+    c1 = strdup(lyd_get_value(n));
+    put_str(c1);
+    printf(" rs=");
+    if (lyd_new_term(NULL, mod, name, c1, 0, &m) || !m) {
+        printf("E");
+    } else {
+        put_str(lyd_get_value(m));
+    }
+    printf(" dp=");
+    if (lyd_dup_single(n, NULL, 0, &d) || !d) {
+        printf("E");
+    } else {
+        printf("%s", lyd_compare_single(n, d, 0) ? "NE:" : "");
+        put_str(lyd_get_value(d));
+    }
+    printf(" dx=");
+    if (lyd_dup_single_to_ctx(n, CTX2, NULL, 0, &x) || !x) {
+        printf("E");
+    } else {
+        put_str(lyd_get_value(x));
+    }
+    r = lyd_change_term_canon(n, c1);
+    printf(" cc=%s", (!r || (r == LY_EEXIST) || (r == LY_ENOT)) ? "OK" : "E");
+    if (!r || (r == LY_EEXIST) || (r == LY_ENOT)) {
+        if (strcmp(lyd_get_value(n), c1)) {
+            printf(":");
+            put_str(lyd_get_value(n));
+        }
+    }
+
+cleanup:
+    lyd_free_all(n);
+    lyd_free_all(m);
+    lyd_free_all(d);
+    lyd_free_all(x);
+    free(c1);
+    free(s);
+}
+
+static void
 do_dupl(struct ly_ctx *ctx, struct lys_module *mod, struct vcase *c)
 {
     size_t la, lb;
@@ -975,7 +1048,9 @@ main(void)
     tzset();
     ly_set_log_clb(log_cb);
     build_module();
-    if (ly_ctx_new(NULL, LY_CTX_NO_YANGLIBRARY, &ctx) || lys_parse_mem(ctx, MODTEXT, LYS_IN_YANG, &mod)) {
+    if (ly_ctx_new(NULL, LY_CTX_NO_YANGLIBRARY, &ctx) || lys_parse_mem(ctx, ACM, LYS_IN_YANG, NULL) ||
+            lys_parse_mem(ctx, MODTEXT, LYS_IN_YANG, &mod) || ly_ctx_new(NULL, LY_CTX_NO_YANGLIBRARY, &CTX2) ||
+            lys_parse_mem(CTX2, ACM, LYS_IN_YANG, NULL) || lys_parse_mem(CTX2, MODTEXT, LYS_IN_YANG, NULL)) {
         fprintf(stderr, "ctx/module\n%s\n", MODTEXT);
         const struct ly_err_item *e = ly_err_last(ctx);
         if (e) {
@@ -997,6 +1072,8 @@ main(void)
             do_srt(mod, &c);
         } else if (!strcmp(comp, "ci") && (c.nf >= 3) && find_type(c.f[1])) {
             do_ci(mod, &c);
+        } else if (!strcmp(comp, "cx") && (c.nf >= 3) && find_type(c.f[1])) {
+            do_cx(mod, &c);
         } else if (!strcmp(comp, "dupl") && (c.nf >= 4) && find_type(c.f[1])) {
             do_dupl(ctx, mod, &c);
         } else if (!strcmp(comp, "perm") && (c.nf >= 5) && find_type(c.f[1])) {
@@ -1013,6 +1090,7 @@ main(void)
         VEND();
     }
     ly_ctx_destroy(ctx);
+    ly_ctx_destroy(CTX2);
     free(MODTEXT);
     return 0;
 }
